@@ -14,6 +14,9 @@ namespace multi = boost::multi;
 template<int D, class W, std::size_t... I>
 decltype(auto) rebased(W& w0, Model const& m, std::index_sequence<I...> /*unused*/) { return w0.reindexed(static_cast<multi::index>(m.d[I].first)...); }
 
+template<class X> struct is_exact_ref : std::false_type {};
+template<class T, multi::dimensionality_type D, class P, class L> struct is_exact_ref<multi::array_ref<T, D, P, L>> : std::true_type {};
+
 inline int val(int x) { return x; }
 inline int val(vp::Tracked const& x) { return x.v; }
 
@@ -21,8 +24,10 @@ enum Form { F_ASSIGN_VIEW, F_ASSIGN_VIEW_RVALUE, F_ASSIGN_ARRAY, F_ASSIGN_LONG, 
 char const* const form_name[] = {"v = w", "move(v) = w", "v = array", "v = array<long>", "v.elements() = w.elements()", "v.fill(x)", "swap(v, w)", "v = {..}", "v = w.element_moved()", "v = move(root)[..]", "v.assign(it)"};
 
 // the destination: any view produced by the C01 generator over a root with sentinel contents
-template<class T, bool Based>
+template<class T, class Cfg>
 struct Fin {
+	static constexpr bool Based = Cfg::based;
+	static constexpr bool Fancy = !std::is_same_v<typename Cfg::template ptr<T>, T*>;
 	T* root; long N; Ctx& ctx; Input const& in; void const* root_data; std::vector<long> root_ext;
 	bool done = false;
 
@@ -30,7 +35,7 @@ struct Fin {
 	void operator()(V& v, Model& m, I& /*interp*/) {
 		constexpr int D = vp::rank_of<V>;
 		ctx.desc << " => "; m.print(ctx.desc);
-		if constexpr(std::is_const_v<V> || vp::is_csub<V>::value || !std::is_same_v<typename V::element_ptr, T*>) {
+		if constexpr(std::is_const_v<V> || vp::is_csub<V>::value || !std::is_same_v<typename V::element_ptr, typename Cfg::template ptr<T>>) {
 			ctx.count("destination_not_mutable"); ctx.label("dest_not_mutable");  // read-only destination: nothing to assign (C16's subject)
 			return;
 		} else {
@@ -71,10 +76,16 @@ struct Fin {
 		// source operands: zero-based objects of operands.hpp; on re-based destinations they are given the destination's index bases
 		auto with_src = [&](auto tag_t, auto tag_mut, int k, auto&& body) {
 			using TT = typename decltype(tag_t)::type;
-			vp::ops::with_operand<D, TT, decltype(tag_mut)::value>(src, k, [&](auto&& w0) {
-				if constexpr(Based) { auto&& w = rebased<D>(w0, m, std::make_index_sequence<static_cast<std::size_t>(D)>{}); body(w); }
+			auto run_body = [&](auto&& w0) {
+				// (an array_ref over a fancy pointer is never selected as a source here -- K_REF is mapped to K_VIEW below -- and its element_moved() does not
+				//  instantiate for class-type pointers: compile-level finding of C11, probes/C11_ref_element_moved.cpp)
+				if constexpr(Fancy && is_exact_ref<std::decay_t<decltype(w0)>>::value) { (void)w0; }
+				else if constexpr(Based) { auto&& w = rebased<D>(w0, m, std::make_index_sequence<static_cast<std::size_t>(D)>{}); body(w); }
 				else { body(w0); }
-			});
+			};
+			// over a fancy-pointer configuration half of the sources live in storage of the same pointer family (the other half are raw-pointer views: mixed assignment)
+			if constexpr(Fancy) { if((skind & 32U) != 0 && k != vp::ops::K_REF) { ctx.label("source_same_pointer_family"); vp::ops::with_operand_a<D, TT, decltype(tag_mut)::value, Cfg::template alloc>(src, k, run_body); return; } ctx.label("source_raw_pointer"); }
+			vp::ops::with_operand<D, TT, decltype(tag_mut)::value>(src, k, run_body);
 		};
 		struct tag_T { using type = T; }; struct tag_long { using type = long; };
 		int kind = static_cast<int>(skind % 6U) + 1;  // K_REF .. K_STRIDED (views of various layouts)
@@ -136,9 +147,15 @@ struct Fin {
 			}
 			case F_ELEMENT_MOVED: case F_MOVED_SUBVIEW: {
 				ctx.desc << " from " << vp::ops::kind_name[kind];
+				bool moved_skipped = false;
 				with_src(tag_T{}, std::true_type{}, kind, [&](auto& w) {
 					long const copies0 = vp::obs().assign_copy + vp::obs().ctor_copy;
+					// array_ref<T, D, fancy> = fancy_view.element_moved() does not instantiate (array_ref<.., move_ptr<T, fancy>>::data_elements() const needs two
+					// user-defined conversions): compile-level finding of C11, probes/C11_ref_element_moved.cpp; counted
+					if constexpr(Fancy && is_exact_ref<V>::value && !std::is_same_v<typename std::decay_t<decltype(w)>::element_ptr, T*>) { ctx.count("excluded_fancy_array_ref_from_element_moved"); moved_skipped = true; return; }
+					else {
 					if((skind & 64U) != 0) { v = w.element_moved(); } else { std::move(v) = w.element_moved(); }  // named and temporary destination
+					}
 					long const copies1 = vp::obs().assign_copy + vp::obs().ctor_copy;
 					(void)copies0; (void)copies1;
 					if constexpr(std::is_same_v<T, vp::Tracked>) {  // moving from a view moves from exactly the viewed elements
@@ -146,7 +163,7 @@ struct Fin {
 						VP_CHECK(copies1 == copies0, "assign/moved_copies", "assignment from element_moved() performed " << (copies1 - copies0) << " element copies");
 					}
 				});
-				expect_src();
+				if(!moved_skipped) { expect_src(); }
 				break;
 			}
 			default: break;
@@ -172,8 +189,8 @@ void run_td(Input const& in, Ctx& ctx) {
 	vp::with_root<Cfg, T, D, true>(r, [&](auto& root, Model m, T const* base, long N) {
 		auto* wbase = const_cast<T*>(base);
 		for(long i = 0; i < N; ++i) { wbase[i] = T(static_cast<int>(i)); }
-		Fin<T, Cfg::based> fin{wbase, N, ctx, in, static_cast<void const*>(base), {}};
-		vp::Interp<Fin<T, Cfg::based>, Cfg::based, 5, false, true> interp(in, ctx, fin);
+		Fin<T, Cfg> fin{wbase, N, ctx, in, static_cast<void const*>(base), {}};
+		vp::Interp<Fin<T, Cfg>, Cfg::based, 5, false, true> interp(in, ctx, fin);
 		interp.null_root = (N == 0);
 		interp.no_const = true;
 		long sz0[D]; vp::lib_sizes(root, sz0);
